@@ -4,7 +4,7 @@ From Coq Require Import List ZArith Bool.
 From Coq.Strings Require Import Byte.
 Import ListNotations.
 From SV Require Import Text G_tab C11_Model C11_Lemmas C11_TextLemmas C11_FileLemmas C11_Examples C11_IntLemmas C11_RenderLemmas
-  C11_SelectLemmas C11_BlocksLemmas C11_Examples2 C11_AnyLemmas C11_TableLemmas C11_Examples3 C11_FloatLemmas C11_FloatSound C11_DiscoverLemmas.
+  C11_SelectLemmas C11_BlocksLemmas C11_Examples2 C11_AnyLemmas C11_TableLemmas C11_Examples3 C11_FloatLemmas C11_FloatSound C11_DiscoverLemmas C11_InfernalAny C11_IntGrammar C11_TableLemmas2.
 Local Open Scope Z_scope.
 
 (* P0 orientation: the decision of core.py:313-335 is the sign rule; in particular every accepted row spans
@@ -776,3 +776,54 @@ Example C11_witness_discover :
   end /\
   (exists hs, fields_of ex4_fields = Ok hs).
 Proof. exact witness_discover. Qed.
+
+(* ---- round 7: ANY text handed to the Infernal reader ----
+   inf_any ftype cur ls: cur = the columns and split limit in force. While none are known the first line containing "--" is
+   the ruler (its number of groups selects the table; an unknown number is a KeyError), '#' and blank lines are skipped and
+   any other line is a KeyError (there are no default Infernal columns); afterwards every line that is no comment is a row
+   split with the limit, first error wins. Whatever sep= / outfmt= the caller passes is ignored. *)
+Theorem C11_read_infernal_text : forall sep outfmt ftype univ content,
+  snd (read_content Infernal sep outfmt ftype univ content) = inf_any ftype None (content_lines univ content).
+Proof. exact read_infernal_text. Qed.
+Print Assumptions C11_read_infernal_text.
+
+Theorem C11_infernal_row_before_ruler : forall ftype l r, contains (bs "--"%bs) l = false -> skip_any l = false ->
+  inf_any ftype None (l :: r) = Err eKey.
+Proof. exact infernal_row_before_ruler. Qed.
+Print Assumptions C11_infernal_row_before_ruler.
+
+(* ---- round 7: int() on the integer columns, both directions ----
+   int_shape v z = v is [blanks] [sign] digits [blanks] with at least one digit and z its value *)
+Theorem C11_int_iff : forall v z, py_int v = Some z <-> int_shape v z.
+Proof. exact int_iff. Qed.
+Print Assumptions C11_int_iff.
+
+(* ---- round 7: _CONVERTH entry by entry ---- *)
+Theorem C11_converth_typed : forall d k col, In (Some k, col) (converth_of d) ->
+  exists hd, find_hdr false col (header_of d) = Some hd /\ hbeq hd = Some k /\
+             (mem k frame_keys = false -> type_of_col Blast k = Some (htype hd)).
+Proof. exact converth_typed. Qed.
+Print Assumptions C11_converth_typed.
+
+(* ---- round 7: every feature of a whole read (any text, outfmt= with distinct columns): every selected column is a key of
+   the format metadata holding a token converted with the declared type, and the common metadata is the documented projection *)
+Theorem C11_read_features_typed : forall d sep o ftype univ hs content fs,
+  (match d with Infernal => false | _ => true end) = true -> headers_from false d (split_ws o) = Ok hs ->
+  nodup_str (map hname hs) = true -> snd (read_content d sep (Some o) ftype univ content) = Ok fs ->
+  Forall (feature_typed d ftype hs) fs.
+Proof. exact read_features_typed. Qed.
+Print Assumptions C11_read_features_typed.
+
+Example C11_witness_int :
+  py_int (bs " +007 "%bs) = Some 7 /\ py_int (bs "-39923568"%bs) = Some (-39923568) /\ py_int (bs "1.0"%bs) = None /\
+  py_int (bs "+"%bs) = None /\ py_int [] = None /\ py_int (bs "1 2"%bs) = None /\ py_int (unhex (bs "371f"%bs)) = None /\
+  py_int (unhex (bs "a03785"%bs)) = Some 7.
+Proof. exact witness_int. Qed.
+Example C11_witness_infernal_text :
+  snd (read_content Infernal None None None false (unlines [ex5_row (bs "5"%bs) (bs "9"%bs) (bs "-"%bs)])) = Err eKey /\
+  match snd (read_content Infernal None None None false
+               (unlines [ex5_row (bs "5"%bs) (bs "9"%bs) (bs "a--b"%bs); ex5_row (bs "50"%bs) (bs "90"%bs) (bs "-"%bs)])) with
+  | Ok [f] => (f_start f, f_stop f) = (49%Z, 90%Z)
+  | _ => False
+  end.
+Proof. exact witness_infernal_text. Qed.
